@@ -103,6 +103,39 @@ def rule_R4(body, fired):
         fired.append('R4')
 
 
+def rule_R13_inspect(body, fired):
+    """`X.inspect(|p| BLOCK)` -> `{ let r__ = X; match r__ { Ok(ref p) => BLOCK, Err(_) => {} } r__ }`
+    (definition of Result::inspect); needed because the closure captures `&mut self`."""
+    rx = re.compile(r'\.inspect\(\s*\|(\w+)\|\s*\{')
+    while True:
+        m = rx.search(body)
+        if not m:
+            return body
+        bo = m.end() - 1
+        bc = match_close(body, bo)
+        tail = re.match(r'\s*\)', body[bc + 1:])
+        if not tail:
+            raise TemplateError('R13: inspect shape not recognised')
+        # receiver expression: back to the start of the statement/expression (previous `{`, `;` or start)
+        k = m.start()
+        depth = 0
+        while k > 0:
+            c = body[k - 1]
+            if c in ')]':
+                depth += 1
+            elif c in '([':
+                if depth == 0:
+                    break
+                depth -= 1
+            elif c in '{;' and depth == 0:
+                break
+            k -= 1
+        recv = body[k:m.start()].strip()
+        new = '{ let r__ = %s; match r__ { Ok(ref %s) => %s, Err(_) => {} } r__ }' % (recv, m.group(1), body[bo:bc + 1])
+        body = body[:k] + ' ' + new + body[bc + 1 + tail.end():]
+        fired.append('R13')
+
+
 def rule_R10(text, fired):
     t = text
     # expansions of vec![] forms
@@ -275,7 +308,7 @@ class Gen:
                 cur = synth_tail
             elif d.startswith('sig'):
                 cur = synth_sig
-            elif d in ('external_body', 'decl', 'bodyless-ok', 'noR1'):
+            elif d in ('external_body', 'decl', 'bodyless-ok', 'noR1', 'inline-inspect'):
                 flags.add(d)
             elif d.startswith('default-for '):
                 dm, dh = [x.strip() for x in d[len('default-for '):].split('|')]
@@ -329,6 +362,8 @@ class Gen:
             if 'noR1' not in flags:
                 body = rule_R1(body, fired)
             body = rule_R11(body, fired)
+            if 'inline-inspect' in flags:
+                body = rule_R13_inspect(body, fired)
             body = rule_R2(body, fired)
             body = rule_R10(body, fired)
             for kind, a, b, tag, opt in subs:
